@@ -104,7 +104,19 @@ impl Binder {
         plan = self.egraph.add(Node::Filter([where_, plan]));
         let mut to_rewrite = [projection, distinct, having, orderby];
         plan = self.plan_agg(&mut to_rewrite, groupby, plan)?;
+        let select_items = self.node(projection).as_list().to_vec();
         let [mut projection, distinct, mut having, mut orderby] = to_rewrite;
+        // Select items containing aggregates have been rewritten (`(+ (count b) 1)` is now
+        // `(+ (ref (count b)) 1)`). The output aliases are what an enclosing query refers to
+        // (derived table, CTE): they must name the rewritten items.
+        let rewritten_items = self.node(projection).as_list().to_vec();
+        if let Some(context) = self.contexts.last_mut() {
+            for id in context.output_aliases.values_mut() {
+                if let Some(i) = select_items.iter().position(|item| item == id) {
+                    *id = rewritten_items[i];
+                }
+            }
+        }
         self.plan_apply(&mut having, &mut plan);
         plan = self.egraph.add(Node::Filter([having, plan]));
         plan = self.plan_window(projection, distinct, orderby, plan)?;
